@@ -91,6 +91,8 @@ def C07(ctx):
         ctx.run(ctx.export('FamilyGSplit(p, 4)', pre_sample=4000), nontrivial=cyc, runtime=False)
     # termination on incomplete programs too: a missing input under a binding / under the parent of a selected field
     ctx.run(ctx.export('FamilyX(p, {"missing-under-fieldsof-parent", "missing-behind-bind", "missing-behind-bind-2", "two-fieldsof-items"})'), nontrivial=lambda c: True, runtime=False)
+    # cycles through unnamed composite types, and a cycle behind an interface the search meets first
+    ctx.run(ctx.export('FamilyX(p, {"cycle-through-pointer-types", "cycle-behind-bound-interface"})'), nontrivial=lambda c: True, runtime=False, check=True)
     sc = ctx.export('FamilyLattice(p, {6, 10, 20, 40})') + ctx.export('FamilyChain(p, {50, 150})')
     # one package per invocation, with the verif hooks' loop counters: iterations of the cycle search and of the planner
     # must stay within WorkBound (quadratic in nodes + edges, far below the number of paths); without counters the timeout is the criterion
@@ -201,7 +203,7 @@ def C05(ctx):
     ctx.res.cov['exhaustive'] = not ctx.quick
     if ctx.quick:
         cases = ctx.sample(cases, 700)
-    cases += ctx.export('FamilyX(p, {"same-set-twice-direct", "same-set-twice-in-set", "inline-set-conflict", "same-provider-twice-direct", "same-provider-twice-in-set"})')
+    cases += ctx.export('FamilyX(p, {"same-set-twice-direct", "same-set-twice-in-set", "inline-set-conflict", "same-provider-twice-direct", "same-provider-twice-in-set", "blank-param-conflicts-with-set"})')
     ctx.design_analyze(cases, limit=500 if ctx.quick else 1200, label='family K ')
     ctx.run(cases, runtime=False, check=True)
 
@@ -214,7 +216,7 @@ def C08(ctx):
                      'plus every program of family G passed directly; non-trivial = WireSem: UnusedDirect # {} or an indirectly used item; '
                      'judge: unused => rejected with an unused diagnostic and no output; contributing => accepted; partially used FieldsOf lists are free')
     nt = lambda c: 'unused' in reasons(c) or c['key'].startswith('U/indirect')
-    ucases = ctx.export('FamilyU(p)') + ctx.export('FamilyX(p, {"two-fieldsof-second-unused", "set-used-by-first-injector-only", "two-fieldsof-items", "bind-after-concrete", "inline-set-partly-used", "inline-set-unused", "inline-set-in-named-set", "inline-set-twice"})')
+    ucases = ctx.export('FamilyU(p)') + ctx.export('FamilyX(p, {"two-fieldsof-second-unused", "set-used-by-first-injector-only", "two-fieldsof-items", "bind-after-concrete", "inline-set-partly-used", "inline-set-unused", "inline-set-in-named-set", "inline-set-twice", "struct-both-forms-plus-superfluous", "same-name-packages-one-unused"})')
     ctx.design_analyze(ucases, label='family U ')
     ctx.run(ucases, nontrivial=nt, runtime=True, switches=W_ONLY)
     g = [c for c in ctx.export(G(3, 'all', ('dir',))) if 'unused' in reasons(c) or verdict(c) == 'yes']
@@ -235,6 +237,8 @@ def C09(ctx):
     cases = ctx.export('FamilyQ(p, %d)' % (3 if ctx.quick else 4))
     ctx.res.cov['exhaustive'] = True
     ctx.run(cases, runtime=False, check=False)
+    # a variadic provider whose fixed parameter has the slice type of the variadic one; zero-call injectors declaring results they do not need
+    ctx.run(ctx.export('FamilyX(p, {"variadic-dup-param", "arg-returned-directly-full-sig", "variadic-err-provider"})'), nontrivial=lambda c: True, runtime=True, switches=ALL)
 
 
 # ------------------------------------------------------------------ C10
@@ -273,7 +277,7 @@ def C11(ctx):
     ctx.run(cases, runtime=True, switches=W_ONLY)
     ctx.rules.append('family X: binding an interface to an interface that lacks a method, an injector that returns one of several arguments through a binding without calling any provider, '
                      'two sets sharing their first import of which only one provides the bound type')
-    ctx.run(ctx.export('FamilyX(p, {"bind-iface-not-implementing", "arg-returned-through-bind", "arg-returned-directly", "shared-import-bind-lacks-concrete", "missing-behind-bind"})'), runtime=True, switches=W_ONLY)
+    ctx.run(ctx.export('FamilyX(p, {"bind-iface-not-implementing", "arg-returned-through-bind", "arg-returned-directly", "shared-import-bind-lacks-concrete", "missing-behind-bind", "bind-to-field-type", "bind-after-concrete"})'), runtime=True, switches=W_ONLY)
 
 
 # ------------------------------------------------------------------ C12
@@ -282,7 +286,7 @@ def C12(ctx):
                      'asked for as S1 and *S1; wire.FieldsOf over S1 / *S1 provided by function / parameter / struct provider for subsets of {A,B,c} consumed by value or as pointer into the struct; '
                      'non-trivial = every case; judge: rejected iff a name is unknown/prevented (exact match); at run time exactly the selected fields carry the value of the source of their type, '
                      'all others zero; F is the field of the provided struct and *F aliases it (pointer ordinals)')
-    cases = ctx.export('FamilyS(p)') + ctx.export('FamilyX(p, {"struct-fields-from-params-crossed", "two-fieldsof-items", "foreign-struct-exported-name", "embedded-fields-struct", "embedded-fields-fieldsof"})')
+    cases = ctx.export('FamilyS(p)') + ctx.export('FamilyX(p, {"struct-fields-from-params-crossed", "two-fieldsof-items", "foreign-struct-exported-name", "embedded-fields-struct", "embedded-fields-fieldsof", "bind-to-field-type"})')
     ctx.res.cov['exhaustive'] = True
     ctx.design_inject(cases, maxcalls=2, label='family S ')
     ctx.run(cases, runtime=True, switches=W_ONLY)
@@ -420,6 +424,8 @@ def C15(ctx):
     cases = ctx.export('FamilyD(p)', extends='WireCopyDecl', caseop='CaseD')
     ctx.res.cov['exhaustive'] = True
     copydecl.run(ctx, cases)
+    # declarations of injector files that need a blank import / that sit in a second injector file with several injectors / provider sets declared there
+    ctx.run(ctx.export('FamilyX(p, {"embed-in-injector-file", "two-files-ok", "sets-in-injector-file"})'), nontrivial=lambda c: True, runtime=True, switches=W_ONLY)
 
 
 def C16(ctx):
